@@ -106,13 +106,28 @@ for (p, fl), r in zip(jobs, pmap(lambda j: build_pack(g, j[0], j[1], argvs=[[]])
         name = u.name if u else "exit"
         sig = "names-lost:" + re.sub(r"decl=\w+ refl=\w+ ", "", name) if name.startswith("reflect") else "names-lost:" + name
         R.violation(sig, "flags %s unit %s: %s" % (fl, name, desc), {"module/" + k: v for k, v in assemble([(n, u)], header_main=PTR_HELPER).items()} if u else None)
+# ---- scripted map-iteration worlds (engine B): the reflection analysis must not depend on garble's map iteration order
+gmw = Garble(binpath=build_garble_mapworld(), name="c08")
+WORLDS = list(range(1, 5 if tier == "quick" else 13))
+refl_units = number([u for u in us if u.name.startswith("reflect")])
+world_runs = 0
+def wjob(w):
+    return w, build_pack(gmw, refl_units, [], {"VERIF_MAPWORLD": str(w)}, argvs=[[]])
+for w, r in pmap(wjob, WORLDS, workers=4):
+    world_runs += 1
+    if r.build_ok is False:
+        R.violation("map-world-build-fails", "world %d: garble build fails: %s" % (w, short(r.garble_stderr, 800)))
+    for n, desc in r.bad_units.items():
+        u = dict(refl_units).get(n)
+        name = u.name if u else "exit"
+        R.violation("names-lost:" + re.sub(r"decl=\w+ refl=\w+ ", "", name), "map world %d (VERIF_MAPWORLD=%d, replayable) unit %s: %s" % (w, w, name, desc))
 R.finish({
-    "evaluations": rep["comparisons"] + built,
+    "evaluations": rep["comparisons"] + built + world_runs,
     "distinct_nontrivial": len(us),
     "rule": "program layer: a struct with nested / pointer / slice / map-of-struct fields declared in {main, dep, dep of dep} and reflected in {main, dep} through each of %d flow paths (direct, 1-2 helpers, two-parameter helper, "
             "interface, pointer, slice, variadic, struct field, method value, json, fmt %%+v, text/template, generic helper, closure, map, chan) plus the type-algebra chains with reflective use sites; oracle: stdout (type names, "
             "field names, JSON keys, lookups by name) equals the plain build; replacer seam: all lists of <=3 sorted pairs over keys {a,b}^1..3 x inputs {a,b,c}^<=%s against strings.NewReplacer; "
             "distinct_nontrivial = distinct program units" % (len(PATHS), "6" if tier == "quick" else "7"),
     "samples": [u.name for u in us[:3]] + (rep["samples"] or [])[:3],
-    "replacer_pair_lists": rep["pair_lists"], "replacer_comparisons": rep["comparisons"], "replacer_inputs_changed": rep["inputs_changed_by_replacement"], "modules_built": built,
-}, assumptions=["map iteration order inside garble's reflection analysis is not controlled here: one order per build is observed"], exhaustive=True)
+    "replacer_pair_lists": rep["pair_lists"], "replacer_comparisons": rep["comparisons"], "replacer_inputs_changed": rep["inputs_changed_by_replacement"], "modules_built": built, "map_worlds": len(WORLDS),
+}, assumptions=["map iteration orders of garble are explored through N scripted, replayable worlds of the patched runtime, not all orders"], exhaustive=True)
